@@ -32,6 +32,13 @@ type c13attempt struct {
 	Whole  bool // payload complete (ends with newline)
 }
 
+var c13big = strings.Repeat(" 0123456789abcdef", 4100) // 69.7 KB
+
+// c13errs is an error of a type that cannot be compared with == (comparing two of them panics).
+type c13errs []string
+
+func (e c13errs) Error() string { return strings.Join(e, "; ") }
+
 type c13err struct{ w string }
 
 func (e c13err) Error() string { return "custom failure on " + e.w }
@@ -68,7 +75,9 @@ func (f *faultW) Write(p []byte) (int, error) {
 		w.attempts = append(w.attempts, a)
 		// destinations fail with errors of different concrete types, some after a short write
 		w.nfail++
-		switch w.nfail % 7 {
+		switch w.nfail % 9 {
+		case 7, 8: // two failures in a row with errors of the same uncomparable type
+			return 0, c13errs{"uncomparable", f.name}
 		case 4:
 			return 0, os.ErrClosed
 		case 5:
@@ -96,7 +105,7 @@ type c13case struct {
 	Bound   int   `json:"bound"`
 }
 
-var c13configs = []string{"1 normal + 1 error writer", "2 normal + 2 error writers", "2+2 and a per-level writer for Info", "one writer in both the normal and the error list (+1 each)", "4 normal + 4 error writers"}
+var c13configs = []string{"1 normal + 1 error writer", "2 normal + 2 error writers", "2+2 and a per-level writer for Info", "one writer in both the normal and the error list (+1 each)", "4 normal + 4 error writers", "a logger without writers of its own: the package-level default writer set (1 normal + 1 error writer)"}
 
 var c13classes = []struct {
 	name string
@@ -134,6 +143,19 @@ func c13build(w *c13world, config int, level slog.Level) *c13setup {
 		l.SetWriter(mk("n1")).AddWriter(mk("n2")).AddWriter(mk("n3")).AddWriter(mk("n4"))
 		l.SetErrorWriter(mk("e1")).AddErrorWriter(mk("e2")).AddErrorWriter(mk("e3")).AddErrorWriter(mk("e4"))
 		st.normal, st.errw = []string{"n1", "n2", "n3", "n4"}, []string{"e1", "e2", "e3", "e4"}
+	case 5:
+		// the logger falls back to the package-level default destinations, given through the exported methods of the default writer set
+		if dw, ok := slog.GetDefaultWriter().(interface {
+			SetWriter(io.Writer)
+			SetErrorWriter(io.Writer)
+		}); ok {
+			dw.SetWriter(mk("n1"))
+			dw.SetErrorWriter(mk("e1"))
+			st.normal, st.errw = []string{"n1"}, []string{"e1"}
+		} else {
+			l.SetWriter(mk("n1")).SetErrorWriter(mk("e1")) // the default set is not reachable this way: same as configuration 0
+			st.normal, st.errw = []string{"n1"}, []string{"e1"}
+		}
 	case 3:
 		sh := mk("shared")
 		l.SetWriter(sh).AddWriter(mk("n2")).SetErrorWriter(sh).AddErrorWriter(mk("e2"))
@@ -283,6 +305,9 @@ func c13runOne(cas c13case, prefix []int) (*sched.Execution, *c13world, *c13setu
 			w.call = i
 			w.perCall = map[string]int{}
 			msg := fmt.Sprintf("call-%d-msg", i)
+			if i == 0 && cas.Config%2 == 1 {
+				msg += c13big // a record of more than 64 KiB is still one Write per destination and one diagnostic at most
+			}
 			if c == 3 {
 				msg = ""
 			}
